@@ -651,5 +651,14 @@ def monitors_in_child(rec, names):
         try:
             res = getattr(monitors, nm)(rec.rng, rec.tier)
             res.report(rec, nm)
-        except Exception:
-            rec.broken.append('monitor %s crashed: %s' % (nm, traceback.format_exc()[-1800:]))
+        except Exception as e:
+            import sys
+            tb = traceback.extract_tb(sys.exc_info()[2])
+            if tb and '/verif/' not in tb[-1].filename:
+                # raised by the code under test (or a library below it) on an input inside the property's domain: a finding, not a checker crash
+                where = '%s:%d' % (tb[-1].filename, tb[-1].lineno)
+                rec.violation(dict(function=nm, kind='exception', clause=type(e).__name__ + ' ' + where[-60:]),
+                              'bounded monitor %s: the code under test raised %s on an admissible input (%s): %s' % (nm, type(e).__name__, where, str(e)[:200]),
+                              witness=dict(python=True, source='bounded monitor', monitor=nm, traceback=traceback.format_exc()[-2500:]))
+            else:
+                rec.broken.append('monitor %s crashed: %s' % (nm, traceback.format_exc()[-1800:]))
